@@ -99,8 +99,8 @@ def _helper_read_frame(lit: LineIterator) -> tuple:
     resnums = []
     resnames = []
     attypes = []
-    pos = np.zeros((natoms, 3), np.float32)
-    vel = np.zeros((natoms, 3), np.float32)
+    pos = np.zeros((natoms, 3), float)
+    vel = np.zeros((natoms, 3), float)
     for i in range(natoms):
         line = next(lit)
         resnums.append(int(line[:5]))
@@ -119,7 +119,7 @@ def _helper_read_frame(lit: LineIterator) -> tuple:
     pos *= nanometer  # atom coordinates are in nanometers
     vel *= nanometer / picosecond
     # Read the cell line
-    cell = np.zeros((3, 3), np.float32)
+    cell = np.zeros((3, 3), float)
     words = next(lit).split()
     if len(words) >= 3:
         cell[0, 0] = float(words[0])
